@@ -10,6 +10,8 @@ def plan(tier):
         Cond("vf.h.h_req", "h_price_order", case=1, timeout=600, label="H01d-price-keys", weight=5),
     ]
     for k in (1, 2, 3):
+        if k == 1:
+            conds.append(Cond("vf.h.h_order", "h_look", case=0, timeout=600, label="H01h-driver-looks-for-requests", weight=5))
         conds.append(Cond("vf.h.h_instr2", "h_prec_order", case=k, timeout=900, label=f"H01g-generator-map-order[generator {k} re-injected]", weight=15))
     for r in (1, 2):
         conds.append(Cond("vf.h.h_queue", "h_fifo", case=r, timeout=1500, env={"VF_ORACLE": "C01", "VF_ROLESET": "1,2,5,7"}, label=f"H01f-update-order[v0 role {r}]", weight=40))
